@@ -79,10 +79,16 @@ def window_cases(seed=0):
     rng = np.random.default_rng(seed)
     bad = []
     n = 0
-    dev = device()
-    for trial in range(6):
+    dev0 = device()
+    for trial in range(8):
         window = int(rng.integers(1, 5))
         screening = bool(trial % 2)
+        # the rule does not depend on the material: gamma = 0 (the documented special case, as the Python int a user writes) and gamma = 10 as well
+        dev = dev0
+        if trial >= 4:
+            dev = dev0.copy()
+            dev.layer.gamma = (0, 0.0, 10.0, 0)[trial - 4]
+            screening = False
         opts = tdgl.SolverOptions(solve_time=1, adaptive=True, adaptive_window=window, dt_init=1e-3, dt_max=float(rng.choice([5e-3, 1e-1])),
                                   max_solve_retries=5, adaptive_time_step_multiplier=0.5, include_screening=screening)
         s = TDGLSolver(dev, opts, applied_vector_potential=(0.4 if screening else 0.0))
@@ -111,7 +117,7 @@ def window_cases(seed=0):
             dt_used = res.dt
             deltas.append(float(np.abs(np.abs(res.psi) ** 2 - old).max()))
             want_dt = tent_before * 0.5 ** schedule.get(step, 0)
-            case = dict(trial=trial, step=step, window=window, refusals=schedule.get(step, 0), dt_max=opts.dt_max, include_screening=screening)
+            case = dict(trial=trial, step=step, window=window, refusals=schedule.get(step, 0), dt_max=opts.dt_max, include_screening=screening, gamma=dev.layer.gamma)
             if len(s.d_psi_sq_vals) != step + 1:
                 bad.append(dict(case, what="the history of |psi|^2 changes does not hold exactly one entry per completed step", entries=len(s.d_psi_sq_vals)))
             if not (0 < dt_used <= opts.dt_max) or abs(dt_used - want_dt) > 1e-12 * want_dt:
